@@ -575,6 +575,10 @@ def run(ch, ctx, fault=None):
                     ctx.probe("redraw_interrupted")
                 finally:
                     del out.write
+                # (the closing bracket has reached the terminal by the time draw_screen() is
+                # left - not whenever the stream happens to be flushed next)
+                check(not vt.synced, "synchronized_update_left_open_after_failure",
+                      {"stdout_buffered": out.buffered}, "draw")
                 out.drain()
                 check(not vt.synced, "synchronized_update_left_open_after_failure", {}, "draw")
                 desc = "draw_screen(%s) %s" % (layout["kind"], "interrupted by Ctrl-C" if hit
